@@ -85,12 +85,13 @@ def get_prf(name):
     if isinstance(name, str):
         if not name.startswith(_HMAC_PREFIXES):
             raise ValueError(f"unknown prf algorithm: {name!r}")
-        digest = lookup_hash(name[5:]).name
+        digest_info = lookup_hash(name[5:])
+        digest = digest_info.name
 
         def hmac(key, msg):
             return compile_hmac(digest, key)(msg)
 
-        record = (hmac, hmac.digest_info.digest_size)
+        record = (hmac, digest_info.digest_size)
     elif callable(name):
         # assume it's a callable, use it directly
         digest_size = len(name(b"x", b"y"))
